@@ -3,7 +3,7 @@
 use super::*;
 use crate::kani_verif::*;
 
-// @obl props=C02,C03,C13 tier=quick class=bounded fn=abe_policy::Right::from_point shape="concrete points of 0..3 ids (1- and 2-byte LEB128 encodings, both orders)"
+// @obl props=C02,C03,C13 tier=quick class=bounded fn=abe_policy::Right::from_point shape="concrete points of 0..3 ids (1- and 2-byte LEB128 encodings, both orders)" loops="volatile_set=20;zeroize=20"
 kproof! {
     #[kani::unwind(12)]
     fn right__from_point_canonical() {
